@@ -169,7 +169,11 @@ def judge(chk, c, evs):
     def per(h):
         return sum(geom.perimeter(p) for p in groups[h])
     a_or, a_and, a_xor, a_ab, a_ba = ar('a2'), ar('a3'), ar('a4'), ar('a5'), ar('a6')
-    slack = 2 * (per('a2') + per('a3') + per('a4') + per('a5') + per('a6')) + 16
+    # every vertex may sit up to one grid unit from its ideal position (rounded intersections, slit anchors); beyond 2^53
+    # the doubles that carry the result cannot even represent every grid coordinate, which adds maxcoord * 2^-52 units
+    x0, y0, x1, y1 = geom.bbox([groups['a2']])
+    u = 1 + max(abs(x0), abs(y0), abs(x1), abs(y1)) * 2.0 ** -52
+    slack = 2 * u * (per('a2') + per('a3') + per('a4') + per('a5') + per('a6')) + 16
     if abs(a_or - (a_and + a_xor)) > slack:
         chk.violation('C05/area/or=and+xor', 'area(or) %d/2 != area(and) %d/2 + area(xor) %d/2 (slack %d/2)' % (a_or, a_and, a_xor, slack), rp)
     if abs(a_xor - (a_ab + a_ba)) > slack:
